@@ -447,6 +447,10 @@ fn gen_plan(rng: &mut Rng, claimed: &str) -> Plan {
 static HASH_ONLY: std::sync::atomic::AtomicBool = std::sync::atomic::AtomicBool::new(false);
 
 fn gen_server_id(rng: &mut Rng) -> String {
+    if rng.chance(1, 6) {
+        // text that a typed configuration layer could mistake for a number or a flag
+        return rng.pick(&["007", "0042", "1e3", "1.0", "1.50", "+5", "-0", "true", "True", "off", "null", "~", "0x10", " 12", "12 ", "1_000", ".5", "NaN", "9223372036854775808", "00", "no", "[]", "{}", "a: b", "#id", "'q'", "\"q\""]).to_string();
+    }
     if HASH_ONLY.load(std::sync::atomic::Ordering::Relaxed) {
         return match rng.below(6) {
             0 => String::new(),
@@ -932,6 +936,39 @@ fn oracle_self_test() -> Result<(), String> {
 // running a case against the real adapter
 // ------------------------------------------------------------------------------------------------
 
+/// The authentication part of the configuration as `Config::read()` delivers it when the
+/// operator's server id is written in the YAML config file (key `server_id`, as in
+/// config/example.yaml) or given as PASSAGE_ADAPTERS_AUTHENTICATION_MOJANG_SERVERID.
+fn config_layers(server_id: &str, through_env: bool) -> Result<passage::config::AuthenticationAdapter, String> {
+    let dir = std::path::PathBuf::from(std::env::var("VERIF_ROOT").unwrap_or_else(|_| "/verif".into())).join(".run").join(format!("mojang-cfg-{}", std::process::id()));
+    std::fs::create_dir_all(&dir).map_err(|e| e.to_string())?;
+    // a YAML double-quoted scalar understands every JSON string escape
+    let quoted = serde_json::to_string(server_id).map_err(|e| e.to_string())?;
+    let yaml = if through_env {
+        "address: \"127.0.0.1:25565\"\nadapters:\n  authentication:\n    mojang: {}\n".to_string()
+    } else {
+        format!("address: \"127.0.0.1:25565\"\nadapters:\n  authentication:\n    mojang:\n      server_id: {quoted}\n")
+    };
+    let cfg_path = dir.join("config.yaml");
+    std::fs::write(&cfg_path, yaml).map_err(|e| e.to_string())?;
+    // SAFETY: cases run one at a time; nothing else reads these variables meanwhile
+    unsafe {
+        std::env::set_var("CONFIG_FILE", &cfg_path);
+        std::env::set_var("AUTH_SECRET_FILE", dir.join("no-such-secret-file"));
+        if through_env {
+            std::env::set_var("PASSAGE_ADAPTERS_AUTHENTICATION_MOJANG_SERVERID", server_id);
+        }
+    }
+    let res = passage::config::Config::read().map_err(|e| format!("Config::read failed: {e}"));
+    unsafe {
+        std::env::remove_var("CONFIG_FILE");
+        std::env::remove_var("AUTH_SECRET_FILE");
+        std::env::remove_var("PASSAGE_ADAPTERS_AUTHENTICATION_MOJANG_SERVERID");
+    }
+    let _ = std::fs::remove_dir_all(&dir);
+    res.map(|c| c.adapters.authentication)
+}
+
 enum Res {
     Ok(Profile),
     Err(String),
@@ -963,20 +1000,33 @@ async fn run_case(mock: &Mock, case: &Case, shared: Option<&Shared>) -> (Res, Ve
                 tokio::time::timeout(Duration::from_secs(20), fut).await
             }
         }
-    } else if via_config {
+    } else {
         use passage::adapter::authentication::DynAuthenticationAdapter;
         use passage::config::{AuthenticationAdapter as AuthCfg, MojangAuthentication};
-        match DynAuthenticationAdapter::from_config(AuthCfg::Mojang(MojangAuthentication { server_id: case.server_id.clone() })).await {
-            Ok(adapter) => {
+        // how the operator's server id reaches the adapter: not at all through the configuration
+        // (0, 2, 4), as a Config value (1), through a YAML config file (3) or through the
+        // environment (5), the last two read by Config::read() as the binary does
+        let auth_cfg: Option<Result<AuthCfg, String>> = match case.idx % 6 {
+            1 => Some(Ok(AuthCfg::Mojang(MojangAuthentication { server_id: case.server_id.clone() }))),
+            3 => Some(config_layers(&case.server_id, false)),
+            5 => Some(config_layers(&case.server_id, !case.server_id.contains('\0'))),
+            _ => None,
+        };
+        match auth_cfg {
+            Some(Ok(cfg)) => match DynAuthenticationAdapter::from_config(cfg).await {
+                Ok(adapter) => {
+                    let fut = adapter.authenticate(&client, ("play.example.org", 25565), 767, (case.name.as_str(), &case.uuid), &case.secret, &case.public);
+                    tokio::time::timeout(Duration::from_secs(20), fut).await
+                }
+                Err(e) => Ok(Err(passage_adapters::Error::FailedInitialization { adapter_type: "mojang", cause: e.to_string().into() })),
+            },
+            Some(Err(e)) => Ok(Err(passage_adapters::Error::FailedInitialization { adapter_type: "mojang (configuration)", cause: e.into() })),
+            None => {
+                let adapter = MojangAdapter::default().with_server_id(case.server_id.clone());
                 let fut = adapter.authenticate(&client, ("play.example.org", 25565), 767, (case.name.as_str(), &case.uuid), &case.secret, &case.public);
                 tokio::time::timeout(Duration::from_secs(20), fut).await
             }
-            Err(e) => Ok(Err(passage_adapters::Error::FailedInitialization { adapter_type: "mojang", cause: e.to_string().into() })),
         }
-    } else {
-        let adapter = MojangAdapter::default().with_server_id(case.server_id.clone());
-        let fut = adapter.authenticate(&client, ("play.example.org", 25565), 767, (case.name.as_str(), &case.uuid), &case.secret, &case.public);
-        tokio::time::timeout(Duration::from_secs(20), fut).await
     };
     let res = match outcome {
         Ok(Ok(p)) => Res::Ok(p),
@@ -1140,6 +1190,9 @@ fn main() {
             report.eval(key.as_deref());
             report.count(&format!("cases with name category {}", case.category), 1);
             report.count(&format!("mock answer: {}", case.plan.kind), 1);
+            if !shared_mode {
+                report.count(["server id set on the adapter directly", "server id given as a Config value", "server id set on the adapter directly", "server id read from a YAML config file by Config::read", "server id set on the adapter directly", "server id read from the environment by Config::read"][(case.idx % 6) as usize], 1);
+            }
             report.count("requests received by the mock", seen.len() as u64);
 
             let res_json = match &res {
